@@ -134,6 +134,19 @@ def run(ctx):
     try:
         sim = BuilderSim(ctx, features=feats, max_steps=10 + ch.draw(45, "max-steps"))
         ctx.profile = {"root": sim.root_kind, **feats}
+
+        def mid_render(sim):
+            from ..engines.b_builders import Actor, ModuleCtl
+            if any((isinstance(a, Actor) and not a.closed) or (not isinstance(a, (Actor, ModuleCtl)) and not a.closed) for a in sim.actors):
+                return
+            if len(sim.hugr) > 3 and ch.coin(1, 6, "mid-history-render"):
+                try:
+                    sim.hugr.render_dot()
+                    ctx.probe("rendered_mid_history")
+                    ctx.ev("query", "render_dot")
+                except Exception:  # noqa: BLE001  judged at the end
+                    pass
+        sim.after_step = mid_render
         sim.run()
     except Discard as d:
         ctx.discard = str(d)
@@ -150,6 +163,11 @@ def run(ctx):
     g1 = check_render(ctx, h, doc, f"{pal},qualify={q}", RenderConfig(PALETTE[pal], q))
     if g1 is None or ctx.violations:
         return
+    if ch.coin(1, 3, "render-default-again"):
+        # rendering is a pure query: the default rendering after another configuration is the same as before
+        ctx.checked("config-independent")
+        if h.render_dot().source != h.render_dot(None).source or structure(dot.parse(h.render_dot().source)) != structure(g0):
+            ctx.violate("config", "default-rendering-changed-after-other-config", {"config": f"{pal},qualify={q}"})
     ctx.checked("config-independent")
     if structure(g0) != structure(g1):
         ctx.violate("config", "structure-depends-on-config", {"config": f"{pal},qualify={q}"})
